@@ -187,4 +187,683 @@ Section Safe.
     exists (c :: r). split; [reflexivity|]. right. cbn [length].
     destruct Hl as [->|Hl]; cbn [length]; lia.
   Qed.
+
+  (** ** the post-condition of parse_value (and of every value parser it dispatches to):
+      depth restored on success and bounded on failure; the key is unset; on success the
+      ledger grew by the blocks of the value minus the item node (allocated by the caller),
+      on failure it is unchanged; the offset moved forward and stays within [len]. *)
+  Definition pv_post (s : pst) (r : option node) (s' : pst) : Prop :=
+    (0 <= dep s <= c_CJSON_NESTING_LIMIT ->
+       match r with Some _ => dep s' = dep s | None => 0 <= dep s' <= c_CJSON_NESTING_LIMIT + 1 end) /\
+    match r with
+    | Some v => n_key v = None /\ live s' = live s + blocks v - 1 /\ (off s <= off s')%nat /\ (off s' <= len)%nat
+    | None => live s' = live s
+    end.
+  Definition pv_good (Q : Prop) (s : pst) (m : res (option node * pst)) : Prop :=
+    good (fun x => pv_post s (fst x) (snd x)) Q m.
+
+  Lemma parse_number_good s : pv_good False s (parse_number strtod content len s).
+  Proof.
+    unfold pv_good, parse_number.
+    destruct (number_copy_ok (Z.to_nat (c_NUMBER_C_STRING_SIZE - 1)) s 0%nat) as [r [Hr Hl]].
+    rewrite Hr. cbn [bind]. destruct (strtod r) as [[d k]|] eqn:E.
+    - apply Hstrtod in E. cbn [good fst snd]. unfold pv_post. split.
+      + intros _. reflexivity.
+      + split; [reflexivity|]. rewrite blocks_node. cbn [live off add_off set_off blocks_list fold_right].
+        destruct Hl as [->|Hl]; cbn [length] in *; lia.
+    - cbn [good fst snd]. unfold pv_post. split; [lia|reflexivity].
+  Qed.
+
+  (** ** hexadecimal escapes *)
+  Definition plain (p : nat) : Prop := exists c, rdb p = Ok c /\ c <> 34 /\ c <> 92.
+  Definition plain4 (p : nat) : Prop := plain p /\ plain (p + 1) /\ plain (p + 2) /\ plain (p + 3).
+
+  Lemma hex_plain c h : hex_val c = Some h -> c <> 34 /\ c <> 92.
+  Proof. intros H; split; intros ->; vm_compute in H; discriminate H. Qed.
+
+  Lemma is_hex4_good i : (i + 3 < len)%nat ->
+    good (fun b => b = true -> plain4 i) False (is_hex4 content len i).
+  Proof.
+    intros H. unfold is_hex4.
+    destruct (rdb_ok i) as [a [Ha _]]; [lia|].
+    destruct (rdb_ok (i + 1)) as [b [Hb _]]; [lia|].
+    destruct (rdb_ok (i + 2)) as [c [Hc _]]; [lia|].
+    destruct (rdb_ok (i + 3)) as [d [Hd _]]; [lia|].
+    rewrite Ha, Hb, Hc, Hd. cbn [bind good].
+    destruct (hex_val a) as [ha|] eqn:Ea; [|discriminate].
+    destruct (hex_val b) as [hb|] eqn:Eb; [|discriminate].
+    destruct (hex_val c) as [hc|] eqn:Ec; [|discriminate].
+    destruct (hex_val d) as [hd|] eqn:Ed; [|discriminate].
+    intros _. unfold plain4, plain.
+    apply hex_plain in Ea, Eb, Ec, Ed. repeat split; eauto.
+  Qed.
+
+  Lemma parse_hex4_good i : (i + 3 < len)%nat ->
+    good (fun v => v <> 0 -> plain4 i) False (parse_hex4 content len i).
+  Proof.
+    intros H. unfold parse_hex4.
+    destruct (rdb_ok i) as [a [Ha _]]; [lia|].
+    destruct (rdb_ok (i + 1)) as [b [Hb _]]; [lia|].
+    destruct (rdb_ok (i + 2)) as [c [Hc _]]; [lia|].
+    destruct (rdb_ok (i + 3)) as [d [Hd _]]; [lia|].
+    rewrite Ha. cbn [bind].
+    destruct (hex_val a) as [ha|] eqn:Ea; [|cbn [good]; congruence].
+    rewrite Hb. cbn [bind].
+    destruct (hex_val b) as [hb|] eqn:Eb; [|cbn [good]; congruence].
+    rewrite Hc. cbn [bind].
+    destruct (hex_val c) as [hc|] eqn:Ec; [|cbn [good]; congruence].
+    rewrite Hd. cbn [bind].
+    destruct (hex_val d) as [hd|] eqn:Ed; [|cbn [good]; congruence].
+    cbn [good]. intros _. unfold plain4, plain.
+    apply hex_plain in Ea, Eb, Ec, Ed. repeat split; eauto.
+  Qed.
+
+  Lemma utf8_encode_len cp b : utf8_encode_c cp = Some b -> (length b <= 4)%nat.
+  Proof.
+    unfold utf8_encode_c.
+    destruct (cp <? 128); [intros E; inversion E; cbn [length]; lia|].
+    destruct (cp <? 2048); [intros E; inversion E; cbn [length]; lia|].
+    destruct (cp <? 65536); [intros E; inversion E; cbn [length]; lia|].
+    destruct (cp <=? 1114111); [intros E; inversion E; cbn [length]; lia|discriminate].
+  Qed.
+
+  Definition u16_post (ip ie : nat) (u : option (nat * bytes)) : Prop :=
+    match u with
+    | None => True
+    | Some (seq, b) =>
+        (length b <= 4)%nat /\
+        ((seq = 6%nat /\ (ip + 6 <= ie)%nat /\ plain4 (ip + 2)) \/
+         (seq = 12%nat /\ (ip + 12 <= ie)%nat /\ plain4 (ip + 2) /\ rdb (ip + 6) = Ok 92 /\ plain4 (ip + 6 + 2)))
+    end.
+
+  Lemma utf16_good ip ie : (ie <= len)%nat ->
+    good (u16_post ip ie) False (utf16_literal_to_utf8 content len ip ie).
+  Proof.
+    intros Hie. unfold utf16_literal_to_utf8.
+    destruct (Nat.ltb_spec (ie - ip) 6) as [H6|H6]; [exact I|].
+    eapply good_bind; [apply is_hex4_good; lia| |tauto].
+    intros h Hh. destruct h; cbn [negb]; [|exact I].
+    specialize (Hh eq_refl).
+    eapply good_bind; [apply parse_hex4_good; lia| |tauto].
+    intros fc _.
+    destruct ((56320 <=? fc) && (fc <=? 57343)); [exact I|].
+    destruct ((55296 <=? fc) && (fc <=? 56319)).
+    - destruct (Nat.ltb_spec (ie - (ip + 6)) 6) as [H12|H12]; [exact I|].
+      destruct (rdb_ok (ip + 6)) as [c0 [Hc0 _]]; [lia|]. rewrite Hc0. cbn [bind].
+      destruct (Z.eqb_spec c0 92) as [->|N0]; cbn [negb]; [|exact I].
+      destruct (rdb_ok (ip + 6 + 1)) as [c1 [Hc1 _]]; [lia|]. rewrite Hc1. cbn [bind].
+      destruct (c1 =? 117); cbn [negb]; [|exact I].
+      eapply good_bind; [apply parse_hex4_good; lia| |tauto].
+      intros sc Hsc.
+      destruct (Z.ltb_spec sc 56320) as [Hlo|Hlo]; cbn [orb]; [exact I|].
+      destruct (sc >? 57343); [exact I|].
+      destruct (utf8_encode_c _) as [b|] eqn:Eb; cbn [good u16_post]; [|exact I].
+      split; [eapply utf8_encode_len; exact Eb|]. right.
+      repeat split; try assumption; try lia; apply Hh || (apply Hsc; lia).
+    - destruct (utf8_encode_c fc) as [b|] eqn:Eb; cbn [good u16_post]; [|exact I].
+      split; [eapply utf8_encode_len; exact Eb|]. left.
+      repeat split; try lia; apply Hh.
+  Qed.
+
+  (** ** strings: what the first pass establishes about the bytes up to the closing quote.
+      [scanned ie p k]: walking from [p] the scan reaches the closing quote at [ie] after
+      [k] backslash steps. *)
+  Inductive scanned (ie : nat) : nat -> nat -> Prop :=
+  | sc_end : (ie < len)%nat -> rdb ie = Ok 34 -> scanned ie ie 0
+  | sc_esc p k : rdb p = Ok 92 -> (p + 1 < len)%nat -> scanned ie (p + 2) k -> scanned ie p (S k)
+  | sc_chr p k c : rdb p = Ok c -> c <> 34 -> c <> 92 -> scanned ie (p + 1) k -> scanned ie p k.
+
+  Lemma scanned_bound ie p k : scanned ie p k -> (p + 2 * k <= ie)%nat /\ (ie < len)%nat.
+  Proof. induction 1 as [H1 H2|p k H1 H2 H3 IH|p k c H1 H2 H3 H4 IH]; lia. Qed.
+
+  Lemma scanned_eq ie p p' k : scanned ie p k -> p = p' -> scanned ie p' k.
+  Proof. intros H <-. exact H. Qed.
+
+  Lemma scanned_inv ie p k c : scanned ie p k -> rdb p = Ok c ->
+    (p = ie /\ k = 0%nat /\ c = 34) \/
+    (c = 92 /\ exists k', k = S k' /\ (p + 1 < len)%nat /\ scanned ie (p + 2) k') \/
+    (c <> 34 /\ c <> 92 /\ scanned ie (p + 1) k).
+  Proof.
+    intros H Hc. destruct H as [H1 H2|p k H1 H2 H3|p k c' H1 H2 H3 H4].
+    - left. rewrite H2 in Hc. inversion Hc. auto.
+    - right. left. rewrite H1 in Hc. inversion Hc. eauto.
+    - right. right. rewrite H1 in Hc. inversion Hc; subst. auto.
+  Qed.
+
+  Lemma scanned_plain ie p k : scanned ie p k -> plain p -> scanned ie (p + 1) k.
+  Proof.
+    intros H (c & Hc & N1 & N2).
+    destruct (scanned_inv _ _ _ _ H Hc) as [(_ & _ & E)|[(E & _)|(_ & _ & H')]]; congruence || exact H'.
+  Qed.
+
+  Lemma scanned_plain4 ie p k : scanned ie p k -> plain4 p -> scanned ie (p + 4) k.
+  Proof.
+    intros H (P0 & P1 & P2 & P3).
+    apply scanned_plain in H; [|exact P0].
+    apply scanned_plain in H; [|exact P1].
+    eapply scanned_eq in H; [|instantiate (1 := (p + 2)%nat); lia].
+    apply scanned_plain in H; [|exact P2].
+    eapply scanned_eq in H; [|instantiate (1 := (p + 3)%nat); lia].
+    apply scanned_plain in H; [|exact P3].
+    eapply scanned_eq; [exact H|lia].
+  Qed.
+
+  Lemma string_scan_good fuel : forall p sk,
+    good (fun r => match r with
+                   | None => True
+                   | Some (ie, sk') => exists k, sk' = (sk + k)%nat /\ scanned ie p k
+                   end)
+         (fuel <= len - p)%nat (string_scan content len fuel p sk).
+  Proof.
+    induction fuel as [|f IH]; intros p sk; cbn [string_scan good]; [lia|].
+    destruct (Nat.ltb_spec p len) as [Hp|Hp]; [|exact I].
+    destruct (rdb_ok p Hp) as [c [Hc _]]. rewrite Hc. cbn [bind].
+    destruct (Z.eqb_spec c 34) as [->|N34].
+    - cbn [good]. exists 0%nat. split; [lia|]. apply sc_end; assumption.
+    - destruct (Z.eqb_spec c 92) as [->|N92].
+      + destruct (Nat.leb_spec len (p + 1)) as [Hl|Hl]; [exact I|].
+        eapply good_weaken; [apply IH| |lia].
+        intros [[ie sk']|]; [|trivial]. intros (k & -> & Hs).
+        exists (S k). split; [lia|]. apply sc_esc; assumption.
+      + eapply good_weaken; [apply IH| |lia].
+        intros [[ie sk']|]; [|trivial]. intros (k & -> & Hs).
+        exists k. split; [lia|]. eapply sc_chr; eassumption.
+  Qed.
+
+  Lemma put_ok cap out b : (length out + length b <= cap)%nat -> put cap out b = Ok (out ++ b).
+  Proof. intros H. unfold put. destruct (Nat.leb_spec (length out + length b) cap); [reflexivity|lia]. Qed.
+
+  Lemma string_decode_good fuel : forall cap ip ie out k,
+    scanned ie ip k -> (length out + (ie - ip - k) + 1 <= cap)%nat ->
+    good (fun _ => True) (fuel <= ie - ip)%nat (string_decode content len fuel cap ip ie out).
+  Proof.
+    induction fuel as [|f IH]; intros cap ip ie out k Hsc Hcap; cbn [string_decode good]; [lia|].
+    destruct (scanned_bound _ _ _ Hsc) as [Hb Hie].
+    destruct (Nat.ltb_spec ip ie) as [Hlt|Hge].
+    2:{ rewrite put_ok by (cbn [length]; lia). exact I. }
+    destruct (rdb_ok ip) as [c [Hc _]]; [lia|]. rewrite Hc. cbn [bind].
+    destruct (scanned_inv _ _ _ _ Hsc Hc) as [(E & _)|[(-> & k' & -> & Hp1 & Hsc')|(N34 & N92 & Hsc')]]; [lia| |].
+    - (* escape *)
+      cbn [Z.eqb Pos.eqb negb].
+      destruct (scanned_bound _ _ _ Hsc') as [Hb' _].
+      destruct (rdb_ok (ip + 1) Hp1) as [e [He _]]. rewrite He. cbn [bind].
+      assert (Hsimple : forall x, good (fun _ => True) (S f <= ie - ip)%nat
+                 (o <- put cap out [x] ;; string_decode content len f cap (ip + 2) ie o)).
+      { intros x. rewrite put_ok by (cbn [length]; lia). cbn [bind].
+        eapply good_weaken; [eapply IH; [exact Hsc'|rewrite app_length; cbn [length]; lia]|trivial|lia]. }
+      destruct (e =? 98); [apply Hsimple|].
+      destruct (e =? 102); [apply Hsimple|].
+      destruct (e =? 110); [apply Hsimple|].
+      destruct (e =? 114); [apply Hsimple|].
+      destruct (e =? 116); [apply Hsimple|].
+      destruct ((e =? 34) || (e =? 92) || (e =? 47)); [apply Hsimple|].
+      destruct (e =? 117); [|exact I].
+      eapply good_bind; [apply utf16_good; lia| |tauto].
+      intros [[seq b]|] Hu; [|exact I].
+      destruct Hu as [Hlb [(-> & Hle & Hp4)|(-> & Hle & Hp4 & H92 & Hp4')]].
+      + pose proof (scanned_plain4 _ _ _ Hsc' Hp4) as Hs6.
+        eapply scanned_eq in Hs6; [|instantiate (1 := (ip + 6)%nat); lia].
+        destruct (scanned_bound _ _ _ Hs6) as [Hb6 _].
+        rewrite put_ok by lia. cbn [bind].
+        eapply good_weaken; [eapply IH; [exact Hs6|rewrite app_length; lia]|trivial|lia].
+      + pose proof (scanned_plain4 _ _ _ Hsc' Hp4) as Hs6.
+        eapply scanned_eq in Hs6; [|instantiate (1 := (ip + 6)%nat); lia].
+        destruct (scanned_inv _ _ _ _ Hs6 H92) as [(E & _)|[(_ & k2 & -> & _ & Hs8)|(_ & N & _)]];
+          [lia| |congruence].
+        pose proof (scanned_plain4 _ _ _ Hs8 Hp4') as Hs12.
+        eapply scanned_eq in Hs12; [|instantiate (1 := (ip + 12)%nat); lia].
+        destruct (scanned_bound _ _ _ Hs12) as [Hb12 _].
+        rewrite put_ok by lia. cbn [bind].
+        eapply good_weaken; [eapply IH; [exact Hs12|rewrite app_length; lia]|trivial|lia].
+    - (* ordinary byte *)
+      destruct (Z.eqb_spec c 92) as [E|_]; [congruence|]. cbn [negb].
+      destruct (scanned_bound _ _ _ Hsc') as [Hb' _].
+      rewrite put_ok by (cbn [length]; lia). cbn [bind].
+      eapply good_weaken; [eapply IH; [eapply scanned_eq; [exact Hsc'|lia]|rewrite app_length; cbn [length]; lia]|trivial|lia].
+  Qed.
+
+  Definition str_post (s : pst) (k : option bytes) (s' : pst) : Prop :=
+    dep s' = dep s /\
+    match k with
+    | Some _ => live s' = live s + 1 /\ (off s <= off s')%nat /\ (off s' <= len)%nat
+    | None => live s' = live s
+    end.
+
+  Lemma parse_string_good s : (off s < len)%nat ->
+    good (fun x => str_post s (fst x) (snd x)) False (parse_string oracle content len s).
+  Proof.
+    intros Hoff. unfold parse_string.
+    destruct (rdb_ok (off s) Hoff) as [c0 [Hc0 _]]. rewrite Hc0. cbn [bind].
+    destruct (c0 =? 34); cbn [negb].
+    2:{ cbn [good fst snd]. unfold str_post. cbn [dep live set_off]. auto. }
+    eapply good_bind; [apply string_scan_good| |lia].
+    intros [[ie sk]|] Hs.
+    2:{ cbn [good fst snd]. unfold str_post. cbn [dep live set_off]. auto. }
+    destruct Hs as (k & -> & Hsc). cbn [Nat.add] in *.
+    destruct (scanned_bound _ _ _ Hsc) as [Hb Hie].
+    destruct (alloc s) as [ok s1] eqn:Ea. apply alloc_spec in Ea. destruct Ea as (A1 & A2 & A3).
+    destruct ok; cbn [negb].
+    2:{ cbn [good fst snd]. unfold str_post. cbn [dep live set_off]. split; [assumption|lia]. }
+    eapply good_bind; [eapply string_decode_good; [exact Hsc|cbn [length]; lia]| |lia].
+    intros [out|ip] _; cbn [good fst snd]; unfold str_post; cbn [dep live off set_off release].
+    - repeat split; try assumption; lia.
+    - split; [assumption|lia].
+  Qed.
+
+  (** ** containers, relative to a value parser [pv] that meets [pv_good] with fuel [pf] *)
+  Section Containers.
+    Variable pv : pst -> res (option node * pst).
+    Variable pf : nat.
+    Hypothesis Hpv : forall s, pv_good (pf <= len - off s)%nat s (pv s).
+
+    Definition lp_post (s : pst) (acc : list node) (r : option (list node)) (s' : pst) : Prop :=
+      (0 <= dep s <= c_CJSON_NESTING_LIMIT ->
+         match r with Some _ => dep s' = dep s | None => 0 <= dep s' <= c_CJSON_NESTING_LIMIT + 1 end) /\
+      match r with
+      | Some items => live s' = live s - blocks_list acc + blocks_list items /\ (off s <= off s')%nat /\ (off s' < len)%nat
+      | None => live s' = live s - blocks_list acc
+      end.
+
+    Ltac pst_simpl := cbn [off dep live add_off set_off set_dep release fst snd] in *.
+
+    Lemma array_loop_good fuel : forall s acc,
+      good (fun x => lp_post s acc (fst x) (snd x))
+           ((fuel <= len - off s)%nat \/ (pf <= len - (off s + 1))%nat)
+           (array_loop oracle content len pv fuel s acc).
+    Proof.
+      induction fuel as [|f IH]; intros s acc; cbn [array_loop good]; [left; lia|].
+      destruct (alloc s) as [ok s1] eqn:Ea. apply alloc_spec in Ea. destruct Ea as (A1 & A2 & A3).
+      destruct ok; cbn [negb].
+      2:{ cbn [good]. unfold lp_post. pst_simpl. split; [intros; lia|lia]. }
+      eapply good_bind; [apply bsw_good| |tauto].
+      intros s2 (W1 & W2 & W3 & W4 & W5). pst_simpl.
+      eapply good_bind; [apply Hpv| |intros HQ; right; lia].
+      intros [r s3] [Hd Hl]. pst_simpl. destruct r as [v|].
+      2:{ cbn [good]. unfold lp_post. pst_simpl. split; [intros Hdep; lia|lia]. }
+      destruct Hl as (K & L & O1 & O2).
+      eapply good_bind; [apply bsw_good| |tauto].
+      intros s4 (V1 & V2 & V3 & V4 & V5).
+      assert (Hfail : good (fun x => lp_post s acc (fst x) (snd x))
+                        ((S f <= len - off s)%nat \/ (pf <= len - (off s + 1))%nat)
+                        (Ok (None, release s4 (blocks_list (v :: acc))))).
+      { cbn [good]. unfold lp_post. pst_simpl. rewrite blocks_list_cons. split; [intros Hdep; lia|lia]. }
+      destruct (can_access len s4 0) eqn:E4; [|exact Hfail].
+      apply can_access_spec in E4.
+      destruct (rdb_ok (off s4)) as [c [Hc _]]; [lia|]. rewrite Hc. cbn [bind].
+      destruct (c =? 44).
+      - eapply good_weaken; [apply IH| |lia].
+        intros [r s'] [Hd' Hl']. unfold lp_post. pst_simpl. split.
+        + intros Hdep. assert (Hd4 : dep s4 = dep s) by lia. rewrite Hd4 in Hd'. exact (Hd' Hdep).
+        + rewrite blocks_list_cons in Hl'. destruct r as [items|]; lia.
+      - destruct (c =? 93); [|exact Hfail].
+        cbn [good]. unfold lp_post. pst_simpl. rewrite blocks_list_rev, blocks_list_cons.
+        split; [intros Hdep; lia|lia].
+    Qed.
+
+    Lemma parse_array_good s : (off s < len)%nat ->
+      pv_good (S pf <= len - off s)%nat s (parse_array oracle content len pv s).
+    Proof.
+      intros Hoff. unfold pv_good, parse_array.
+      destruct (Z.leb_spec c_CJSON_NESTING_LIMIT (dep s)) as [Hlim|Hlim].
+      { cbn [good]. unfold pv_post. pst_simpl. split; [intros; lia|reflexivity]. }
+      cbv zeta. pst_simpl.
+      destruct (rdb_ok (off s) Hoff) as [c0 [Hc0 _]]. rewrite Hc0. cbn [bind].
+      destruct (c0 =? 91); cbn [negb].
+      2:{ cbn [good]. unfold pv_post. pst_simpl. split; [intros; lia|reflexivity]. }
+      eapply good_bind; [apply bsw_good| |tauto].
+      intros s1 (W1 & W2 & W3 & W4 & W5). pst_simpl.
+      destruct (can_access len s1 0) eqn:E1.
+      2:{ cbn [good]. unfold pv_post. pst_simpl. split; [intros; lia|lia]. }
+      apply can_access_spec in E1.
+      destruct (rdb_ok (off s1)) as [c [Hc _]]; [lia|]. rewrite Hc. cbn [bind].
+      destruct (c =? 93).
+      { cbn [good]. unfold pv_post. pst_simpl. rewrite blocks_node. cbn [blocks_list fold_right n_key].
+        split; [intros; lia|]. repeat split; lia. }
+      eapply good_bind; [apply array_loop_good| |pst_simpl; lia].
+      intros [r s2] [Hd Hl]. pst_simpl. destruct r as [items|]; cbn [good]; unfold pv_post; pst_simpl.
+      - rewrite blocks_node. cbn [blocks_list fold_right n_key] in *.
+        split; [intros; lia|]. repeat split; lia.
+      - cbn [blocks_list fold_right] in *. split; [intros; lia|lia].
+    Qed.
+
+    Lemma object_loop_good fuel : forall s acc,
+      good (fun x => lp_post s acc (fst x) (snd x))
+           ((fuel <= len - off s)%nat \/ (pf <= len - (off s + 1))%nat)
+           (object_loop oracle content len pv fuel s acc).
+    Proof.
+      induction fuel as [|f IH]; intros s acc; cbn [object_loop good]; [left; lia|].
+      destruct (alloc s) as [ok s1] eqn:Ea. apply alloc_spec in Ea. destruct Ea as (A1 & A2 & A3).
+      destruct ok; cbn [negb].
+      2:{ cbn [good]. unfold lp_post. pst_simpl. split; [intros; lia|lia]. }
+      destruct (can_access len s1 1) eqn:E1; cbn [negb].
+      2:{ cbn [good]. unfold lp_post. pst_simpl. split; [intros; lia|lia]. }
+      apply can_access_spec in E1.
+      eapply good_bind; [apply bsw_good| |tauto].
+      intros s2 (W1 & W2 & W3 & W4 & W5). pst_simpl.
+      eapply good_bind; [apply parse_string_good; lia| |tauto].
+      intros [k s3] [Sd Sl]. pst_simpl. destruct k as [key|].
+      2:{ cbn [good]. unfold lp_post. pst_simpl. split; [intros; lia|lia]. }
+      destruct Sl as (SL & SO1 & SO2).
+      eapply good_bind; [apply bsw_good| |tauto].
+      intros s4 (X1 & X2 & X3 & X4 & X5).
+      destruct (can_access len s4 0) eqn:E4; cbn [negb].
+      2:{ cbn [good]. unfold lp_post. pst_simpl. split; [intros; lia|lia]. }
+      apply can_access_spec in E4.
+      destruct (rdb_ok (off s4)) as [c [Hc _]]; [lia|]. rewrite Hc. cbn [bind].
+      destruct (c =? 58); cbn [negb].
+      2:{ cbn [good]. unfold lp_post. pst_simpl. split; [intros; lia|lia]. }
+      eapply good_bind; [apply bsw_good| |tauto].
+      intros s5 (Y1 & Y2 & Y3 & Y4 & Y5). pst_simpl.
+      eapply good_bind; [apply Hpv| |intros HQ; right; lia].
+      intros [r s6] [Hd Hl]. pst_simpl. destruct r as [v0|].
+      2:{ cbn [good]. unfold lp_post. pst_simpl. split; [intros Hdep; lia|lia]. }
+      destruct Hl as (K & L & O1 & O2).
+      eapply good_bind; [apply bsw_good| |tauto].
+      intros s7 (V1 & V2 & V3 & V4 & V5).
+      pose proof (blocks_with_key key v0 K) as Hbk.
+      assert (Hfail : good (fun x => lp_post s acc (fst x) (snd x))
+                        ((S f <= len - off s)%nat \/ (pf <= len - (off s + 1))%nat)
+                        (Ok (None, release s7 (blocks_list (with_key key v0 :: acc))))).
+      { cbn [good]. unfold lp_post. pst_simpl. rewrite blocks_list_cons. split; [intros Hdep; lia|lia]. }
+      destruct (can_access len s7 0) eqn:E7; [|exact Hfail].
+      apply can_access_spec in E7.
+      destruct (rdb_ok (off s7)) as [c2 [Hc2 _]]; [lia|]. rewrite Hc2. cbn [bind].
+      destruct (c2 =? 44).
+      - eapply good_weaken; [apply IH| |lia].
+        intros [r s'] [Hd' Hl']. unfold lp_post. pst_simpl. split.
+        + intros Hdep. assert (Hd7 : dep s7 = dep s) by lia. rewrite Hd7 in Hd'. exact (Hd' Hdep).
+        + rewrite blocks_list_cons in Hl'. destruct r as [items|]; lia.
+      - destruct (c2 =? 125); [|exact Hfail].
+        cbn [good]. unfold lp_post. pst_simpl. rewrite blocks_list_rev, blocks_list_cons.
+        split; [intros Hdep; lia|lia].
+    Qed.
+
+    Lemma parse_object_good s : (off s < len)%nat ->
+      pv_good (S pf <= len - off s)%nat s (parse_object oracle content len pv s).
+    Proof.
+      intros Hoff. unfold pv_good, parse_object.
+      destruct (Z.leb_spec c_CJSON_NESTING_LIMIT (dep s)) as [Hlim|Hlim].
+      { cbn [good]. unfold pv_post. pst_simpl. split; [intros; lia|reflexivity]. }
+      cbv zeta.
+      destruct (can_access len (set_dep s (dep s + 1)) 0) eqn:E0; cbn [negb].
+      2:{ cbn [good]. unfold pv_post. pst_simpl. split; [intros; lia|reflexivity]. }
+      pst_simpl.
+      destruct (rdb_ok (off s) Hoff) as [c0 [Hc0 _]]. rewrite Hc0. cbn [bind].
+      destruct (c0 =? 123); cbn [negb].
+      2:{ cbn [good]. unfold pv_post. pst_simpl. split; [intros; lia|reflexivity]. }
+      eapply good_bind; [apply bsw_good| |tauto].
+      intros s1 (W1 & W2 & W3 & W4 & W5). pst_simpl.
+      destruct (can_access len s1 0) eqn:E1.
+      2:{ cbn [good]. unfold pv_post. pst_simpl. split; [intros; lia|lia]. }
+      apply can_access_spec in E1.
+      destruct (rdb_ok (off s1)) as [c [Hc _]]; [lia|]. rewrite Hc. cbn [bind].
+      destruct (c =? 125).
+      { cbn [good]. unfold pv_post. pst_simpl. rewrite blocks_node. cbn [blocks_list fold_right n_key].
+        split; [intros; lia|]. repeat split; lia. }
+      eapply good_bind; [apply object_loop_good| |pst_simpl; lia].
+      intros [r s2] [Hd Hl]. pst_simpl. destruct r as [items|]; cbn [good]; unfold pv_post; pst_simpl.
+      - rewrite blocks_node. cbn [blocks_list fold_right n_key] in *.
+        split; [intros; lia|]. repeat split; lia.
+      - cbn [blocks_list fold_right] in *. split; [intros; lia|lia].
+    Qed.
+  End Containers.
+
+  (** ** parse_value: the general invariant, by induction on the fuel.  Each nested container
+      has consumed its opening bracket before the recursive call, so fuel [> len - off s]
+      suffices. *)
+  Lemma parse_value_good fuel : forall s,
+    pv_good (fuel <= len - off s)%nat s (parse_value strtod oracle content len fuel s).
+  Proof.
+    induction fuel as [|f IH]; intros s; unfold pv_good; cbn [parse_value]; [cbn [good]; lia|].
+    destruct (lit_guard_ok s 4 [110; 117; 108; 108] eq_refl) as [b1 [H1 G1]]. rewrite H1. cbn [bind].
+    destruct b1.
+    { specialize (G1 eq_refl). cbn [good fst snd]. unfold pv_post. rewrite blocks_node.
+      cbn [off dep live add_off set_off n_key blocks_list fold_right].
+      split; [intros; reflexivity|]. repeat split; lia. }
+    destruct (lit_guard_ok s 5 [102; 97; 108; 115; 101] eq_refl) as [b2 [H2 G2]]. rewrite H2. cbn [bind].
+    destruct b2.
+    { specialize (G2 eq_refl). cbn [good fst snd]. unfold pv_post. rewrite blocks_node.
+      cbn [off dep live add_off set_off n_key blocks_list fold_right].
+      split; [intros; reflexivity|]. repeat split; lia. }
+    destruct (lit_guard_ok s 4 [116; 114; 117; 101] eq_refl) as [b3 [H3 G3]]. rewrite H3. cbn [bind].
+    destruct b3.
+    { specialize (G3 eq_refl). cbn [good fst snd]. unfold pv_post. rewrite blocks_node.
+      cbn [off dep live add_off set_off n_key blocks_list fold_right].
+      split; [intros; reflexivity|]. repeat split; lia. }
+    assert (Hnone : good (fun x => pv_post s (fst x) (snd x)) (S f <= len - off s)%nat (Ok (None, s))).
+    { cbn [good fst snd]. unfold pv_post. split; [intros; lia|reflexivity]. }
+    destruct (can_access len s 0) eqn:E0; cbn [negb]; [|exact Hnone].
+    apply can_access_spec in E0.
+    destruct (rdb_ok (off s)) as [c [Hc _]]; [lia|]. rewrite Hc. cbn [bind].
+    destruct (c =? 34).
+    { eapply good_bind; [apply parse_string_good; lia| |tauto].
+      intros [r s'] [Sd Sl]. cbn [fst snd] in *. cbn [good fst snd]. unfold pv_post.
+      destruct r as [str|].
+      - rewrite blocks_node. cbn [n_key blocks_list fold_right]. split; [intros; assumption|].
+        repeat split; lia.
+      - split; [intros; lia|assumption]. }
+    destruct ((c =? 45) || ((48 <=? c) && (c <=? 57))).
+    { eapply good_weaken; [apply parse_number_good|auto|tauto]. }
+    destruct (c =? 91).
+    { eapply good_weaken; [apply parse_array_good with (pf := f); [exact IH|lia]|auto|lia]. }
+    destruct (c =? 123).
+    { eapply good_weaken; [apply parse_object_good with (pf := f); [exact IH|lia]|auto|lia]. }
+    exact Hnone.
+  Qed.
+
+  (** ** entry point *)
+  Definition entry_post (rnt : bool) (r : parse_result) : Prop :=
+    (pr_tree r = None ->
+       pr_live r = 0 /\ exists p, pr_error r = Some p /\ pr_end r = Some p /\ (p < Nat.max len 1)%nat) /\
+    (forall t, pr_tree r = Some t ->
+       pr_live r = blocks t /\ pr_error r = None /\
+       exists e, pr_end r = Some e /\ (e <= len)%nat /\
+                 (rnt = true -> (e < len)%nat /\ nth_error content e = Some 0)).
+
+  Lemma fail_result_post rnt s : live s = 0 -> entry_post rnt (fail_result len s).
+  Proof.
+    intros Hl. unfold entry_post, fail_result. cbn [pr_tree pr_live pr_end pr_error]. split.
+    - intros _. split; [assumption|]. eexists. split; [reflexivity|]. split; [reflexivity|].
+      destruct (Nat.ltb_spec (off s) len); [lia|]. destruct (Nat.ltb_spec 0 len); lia.
+    - intros t E. discriminate E.
+  Qed.
+
+  Lemma parse_entry_good rnt :
+    good (entry_post rnt) False (cJSON_ParseWithLengthOpts strtod oracle content len rnt).
+  Proof.
+    unfold cJSON_ParseWithLengthOpts. cbv zeta.
+    destruct (Nat.eqb_spec len 0) as [E0|E0].
+    { cbn [good]. apply fail_result_post. reflexivity. }
+    destruct (alloc (mkpst 0 0 0 0)) as [ok s1] eqn:Ea. apply alloc_spec in Ea.
+    cbn [off dep live] in Ea. destruct Ea as (A1 & A2 & A3).
+    destruct ok; cbn [negb].
+    2:{ cbn [good]. apply fail_result_post. lia. }
+    eapply good_bind; [apply skip_utf8_bom_good| |tauto].
+    intros s2 (B1 & B2 & B3 & B4).
+    eapply good_bind; [apply bsw_good| |tauto].
+    intros s3 (W1 & W2 & W3 & W4 & W5).
+    eapply good_bind; [apply parse_value_good| |lia].
+    intros [r s4] [Hd Hl]. cbn [fst snd] in *.
+    destruct r as [v|].
+    2:{ cbn [good]. apply fail_result_post. cbn [live release]. lia. }
+    destruct Hl as (K & L & O1 & O2).
+    destruct rnt.
+    - eapply good_bind; [apply rnt_skip_good| |lia].
+      intros s5 (R1 & R2 & R3 & R4).
+      destruct (can_access len s5 0) eqn:E5; cbn [negb].
+      2:{ cbn [good]. apply fail_result_post. cbn [live release]. lia. }
+      apply can_access_spec in E5.
+      destruct (rdb_ok (off s5)) as [c [Hc Hn]]; [lia|]. rewrite Hc. cbn [bind].
+      destruct (Z.eqb_spec c 0) as [->|N0]; cbn [negb].
+      2:{ cbn [good]. apply fail_result_post. cbn [live release]. lia. }
+      cbn [good]. unfold entry_post. cbn [pr_tree pr_live pr_end pr_error]. split.
+      + intros E. discriminate E.
+      + intros t E. inversion E; subst t. split; [lia|]. split; [reflexivity|].
+        exists (off s5). split; [reflexivity|]. split; [lia|]. intros _. split; [lia|assumption].
+    - cbn [good]. unfold entry_post. cbn [pr_tree pr_live pr_end pr_error]. split.
+      + intros E. discriminate E.
+      + intros t E. inversion E; subst t. split; [lia|]. split; [reflexivity|].
+        exists (off s4). split; [reflexivity|]. split; [lia|]. intros E'. discriminate E'.
+  Qed.
 End Safe.
+
+(** * The statements used by Properties_C01.v and Properties_C10.v *)
+
+Theorem parse_length_safe : forall strtod oracle content len rnt,
+  strtod_ok strtod -> (len <= length content)%nat ->
+  exists r, cJSON_ParseWithLengthOpts strtod oracle content len rnt = Ok r
+         /\ (pr_tree r = None -> pr_live r = 0)
+         /\ (forall t, pr_tree r = Some t -> pr_live r = blocks t).
+Proof.
+  intros strtod oracle content len rnt Hs Hl.
+  destruct (good_exists _ _ (parse_entry_good strtod oracle content len Hs Hl rnt)) as [r [E [P1 P2]]].
+  exists r. split; [exact E|]. split.
+  - intros H. apply P1. exact H.
+  - intros t H. apply (P2 t H).
+Qed.
+
+Theorem parse_positions : forall strtod oracle content len rnt r,
+  strtod_ok strtod -> (len <= length content)%nat ->
+  cJSON_ParseWithLengthOpts strtod oracle content len rnt = Ok r ->
+  (pr_tree r = None -> exists p, pr_error r = Some p /\ pr_end r = Some p /\ (p < Nat.max len 1)%nat) /\
+  (forall t, pr_tree r = Some t ->
+     pr_error r = None /\ exists e, pr_end r = Some e /\ (e <= len)%nat /\
+     (rnt = true -> (e < len)%nat /\ nth_error content e = Some 0)).
+Proof.
+  intros strtod oracle content len rnt r Hs Hl E.
+  destruct (good_ok_inv _ _ _ _ (parse_entry_good strtod oracle content len Hs Hl rnt) E) as [P1 P2].
+  split.
+  - intros H. apply P1. exact H.
+  - intros t H. apply (P2 t H).
+Qed.
+
+Theorem parse_depth_bounded : forall strtod oracle content len fuel s r s',
+  strtod_ok strtod -> (len <= length content)%nat -> 0 <= dep s <= c_CJSON_NESTING_LIMIT ->
+  parse_value strtod oracle content len fuel s = Ok (r, s') -> 0 <= dep s' <= c_CJSON_NESTING_LIMIT + 1.
+Proof.
+  intros strtod oracle content len fuel s r s' Hs Hl Hd E.
+  pose proof (good_ok_inv _ _ _ _ (parse_value_good strtod oracle content len Hs Hl fuel s) E) as [P _].
+  cbn [fst snd] in P. specialize (P Hd). destruct r; lia.
+Qed.
+
+(** * zero-terminated entry points *)
+Lemma strlen_mem_ok : forall s2 s1 rest fuel,
+  Forall (fun c => c <> 0) s2 -> (length s2 < fuel)%nat ->
+  strlen_mem fuel (s1 ++ s2 ++ 0 :: rest) (length s1) = Ok (length s1 + length s2)%nat.
+Proof.
+  induction s2 as [|c s2 IH]; intros s1 rest fuel Hnz Hf; (destruct fuel as [|f]; [cbn [length] in Hf; lia|]);
+    cbn [strlen_mem app]; unfold rd; rewrite nth_error_app2 by lia; rewrite Nat.sub_diag; cbn [nth_error bind].
+  - cbn [Z.eqb length]. f_equal. lia.
+  - inversion Hnz as [|c' l' Hc Hnz']; subst.
+    destruct (Z.eqb_spec c 0) as [E|_]; [contradiction|].
+    replace (s1 ++ c :: s2 ++ 0 :: rest) with ((s1 ++ [c]) ++ s2 ++ 0 :: rest)
+      by (rewrite <- app_assoc; reflexivity).
+    replace (S (length s1)) with (length (s1 ++ [c])) by (rewrite app_length; cbn [length]; lia).
+    rewrite IH; [|assumption|cbn [length] in Hf; lia].
+    f_equal. rewrite app_length. cbn [length]. lia.
+Qed.
+
+Theorem parse_string_safe : forall strtod oracle s rest rnt,
+  strtod_ok strtod -> Forall (fun c => c <> 0) s ->
+  exists r, cJSON_ParseWithOpts strtod oracle (s ++ 0 :: rest) rnt = Ok r
+         /\ cJSON_ParseWithOpts strtod oracle (s ++ 0 :: rest) rnt
+            = cJSON_ParseWithLengthOpts strtod oracle (s ++ 0 :: rest) (length s + 1) rnt
+         /\ (pr_tree r = None -> pr_live r = 0)
+         /\ (forall t, pr_tree r = Some t -> pr_live r = blocks t).
+Proof.
+  intros strtod oracle s rest rnt Hs Hnz.
+  assert (E : cJSON_ParseWithOpts strtod oracle (s ++ 0 :: rest) rnt
+              = cJSON_ParseWithLengthOpts strtod oracle (s ++ 0 :: rest) (length s + 1) rnt).
+  { unfold cJSON_ParseWithOpts.
+    rewrite (strlen_mem_ok s [] rest) by (try assumption; rewrite app_length; cbn [length]; lia).
+    reflexivity. }
+  destruct (parse_length_safe strtod oracle (s ++ 0 :: rest) (length s + 1)%nat rnt Hs) as [r [Er [P1 P2]]].
+  { rewrite app_length. cbn [length]. lia. }
+  exists r. rewrite E. auto.
+Qed.
+
+(** * the reference strtod meets the contract *)
+Definition sign_split (s : bytes) : bool * bytes * nat :=
+  match s with
+  | 45 :: r => (true, r, 1%nat)
+  | 43 :: r => (false, r, 1%nat)
+  | _ => (false, s, 0%nat)
+  end.
+
+Definition frac_split (ip : Z) (nint : nat) (s2 : bytes) : Z * nat * bytes * nat :=
+  match s2 with
+  | 46 :: r => let '(m', nf, r') := take_digits r ip 0 in
+               if (nint =? 0)%nat && (nf =? 0)%nat then (ip, 0%nat, s2, 0%nat) else (m', nf, r', 1%nat)
+  | _ => (ip, 0%nat, s2, 0%nat)
+  end.
+
+Definition exp_split (s3 : bytes) : Z * nat :=
+  match s3 with
+  | c :: r =>
+      if (c =? 101) || (c =? 69) then
+        let '(eneg, r1, nes) := sign_split r in
+        let '(ev, ne, _) := take_digits r1 0 0 in
+        if (ne =? 0)%nat then (0, 0%nat)
+        else ((if eneg then - (Z.min ev 100000) else Z.min ev 100000), (1 + nes + ne)%nat)
+      else (0, 0%nat)
+  | [] => (0, 0%nat)
+  end.
+
+Definition strtod_ref' (s : bytes) : option (dbl * nat) :=
+  let '(neg, s1, nsign) := sign_split s in
+  let '(ip, nint, s2) := take_digits s1 0 0 in
+  let '(m, nfrac, s3, ndot) := frac_split ip nint s2 in
+  if (nint + nfrac =? 0)%nat then None
+  else
+    let '(e, nexp) := exp_split s3 in
+    Some (dec_to_dbl_exact neg m (e - Z.of_nat nfrac), (nsign + nint + ndot + nfrac + nexp)%nat).
+
+Lemma strtod_ref_eq s : strtod_ref s = strtod_ref' s.
+Proof. reflexivity. Qed.
+
+Lemma take_digits_spec : forall s acc n v n' r,
+  take_digits s acc n = (v, n', r) -> (n' + length r = n + length s)%nat /\ (length r <= length s)%nat.
+Proof.
+  induction s as [|c s IH]; intros acc n v n' r H; cbn [take_digits] in H.
+  - inversion H; subst. lia.
+  - destruct (is_digit c).
+    + apply IH in H. cbn [length]. lia.
+    + inversion H; subst. cbn [length]. lia.
+Qed.
+
+Lemma sign_split_spec s neg s1 n : sign_split s = (neg, s1, n) -> (n + length s1 = length s)%nat.
+Proof.
+  unfold sign_split. intros H. destruct s as [|c r]; [inversion H; reflexivity|].
+  repeat match type of H with context [match ?p with _ => _ end] => is_var p; destruct p end;
+    inversion H; subst; cbn [length]; lia.
+Qed.
+
+Lemma frac_split_spec ip nint s2 m nfrac s3 ndot :
+  frac_split ip nint s2 = (m, nfrac, s3, ndot) -> (ndot + nfrac + length s3 = length s2)%nat.
+Proof.
+  unfold frac_split. intros H. destruct s2 as [|c r]; [inversion H; reflexivity|].
+  repeat match type of H with context [match ?p with _ => _ end] => is_var p; destruct p end;
+    try (inversion H; subst; cbn [length]; lia).
+  destruct (take_digits r ip 0) as [[m' nf] r'] eqn:E. apply take_digits_spec in E.
+  destruct ((nint =? 0)%nat && (nf =? 0)%nat); inversion H; subst; cbn [length]; lia.
+Qed.
+
+Lemma exp_split_spec s3 e nexp : exp_split s3 = (e, nexp) -> (nexp <= length s3)%nat.
+Proof.
+  unfold exp_split. intros H. destruct s3 as [|c r]; [inversion H; cbn [length]; lia|].
+  destruct ((c =? 101) || (c =? 69)); [|inversion H; lia].
+  destruct (sign_split r) as [[eneg r1] nes] eqn:Es. apply sign_split_spec in Es.
+  destruct (take_digits r1 0 0) as [[ev ne] rest'] eqn:Et. apply take_digits_spec in Et.
+  destruct (ne =? 0)%nat; inversion H; subst; cbn [length]; lia.
+Qed.
+
+Theorem strtod_ref_ok : strtod_ok strtod_ref.
+Proof.
+  intros s d k H. rewrite strtod_ref_eq in H. unfold strtod_ref' in H.
+  destruct (sign_split s) as [[neg s1] nsign] eqn:E1. apply sign_split_spec in E1.
+  destruct (take_digits s1 0 0) as [[ip nint] s2] eqn:E2. apply take_digits_spec in E2.
+  destruct (frac_split ip nint s2) as [[[m nfrac] s3] ndot] eqn:E3. apply frac_split_spec in E3.
+  destruct (Nat.eqb_spec (nint + nfrac) 0) as [E0|E0]; [discriminate H|].
+  destruct (exp_split s3) as [e nexp] eqn:E4. apply exp_split_spec in E4.
+  inversion H; subst. lia.
+Qed.
